@@ -44,8 +44,12 @@ def split_oracle(n, k, kind):
               if 'ok' in r2:
                   out.append(('reject_shard', {'n': n, 'k': k, 'got': r2}))
               return out
-          parts = ds.split(k)
-          lists = [list(p) for p in parts]
+          try:
+              parts = ds.split(k)
+              lists = [list(p) for p in parts]
+          except Exception as e:  # noqa  a valid shard count must be accepted
+              out.append(('valid_split_raises', {'n': n, 'k': k, 'kind': kind, 'err': repr(e)[:160]}))
+              continue
           if len(parts) != k:
               out.append(('count', {'n': n, 'k': k, 'got': len(parts)}))
           flat = [x for l in lists for x in l]
@@ -57,7 +61,11 @@ def split_oracle(n, k, kind):
           if [len(p) for p in parts] != sizes:
               out.append(('len_of_shards', {'n': n, 'k': k}))
           for i in range(-k, k):
-              s = list(ds.shard(k, i))
+              try:
+                  s = list(ds.shard(k, i))
+              except Exception as e:  # noqa
+                  out.append(('valid_shard_raises', {'n': n, 'k': k, 'i': i, 'err': repr(e)[:160]}))
+                  break
               if s != lists[i]:
                   out.append(('shard_eq_split', {'n': n, 'k': k, 'i': i, 'shard': s, 'split': lists[i]}))
                   break
